@@ -15,6 +15,7 @@ type Opts struct {
 	D         int  // maximal number of message fields away from their base value (1, 2 or 3)
 	Thorough  bool // include 65535-byte strings, 70000-byte blobs
 	TypeDepth int  // depth of the data-type trees used as alternatives for column types
+	Invalid   bool // also emit the frames that are not valid for the version (Case.Invalid), for error-path histories
 }
 
 func (o Opts) lvl() int {
@@ -111,6 +112,8 @@ func Frames(v V, o Opts, emit func(Case)) {
 	out := func(name string, f *frame.Frame) {
 		if Valid(f) {
 			emit(Case{Name: fmt.Sprintf("%v/%s", v, name), Frame: f})
+		} else if o.Invalid {
+			emit(Case{Name: fmt.Sprintf("%v/%s", v, name), Frame: f, Invalid: true})
 		}
 	}
 	plain := func(m message.Message) *frame.Frame {
